@@ -170,6 +170,51 @@ def replay_text(case, obs, mode):
                obs.get("growth_refs")))
 
 
+def on_driver_crash(run, mode, res, cases):
+    """The audit died (a crash the probe's protective references could not prevent, or a hang): run
+    every case in its own process to name the cases that kill the interpreter, and judge the others
+    by the same rule as the Spec oracle."""
+    impl = C.Impl()
+    try:
+        def one(case):
+            try:
+                return impl.run(DRIVER, {"cases": [dict(case, repeat=min(int(case.get("repeat", 1000)), 1000))]}, mode, timeout=300)
+            except Exception as e:   # noqa
+                return ("crash", {"returncode": -999, "stderr": repr(e)})
+        with concurrent.futures.ThreadPoolExecutor(max_workers=C.NCPU) as ex:
+            results = list(ex.map(one, cases))
+    finally:
+        impl.cleanup()
+    crashed = unowned = 0
+    for case, (st, r) in zip(cases, results):
+        tag = "%s_%s_%s_%s_%s" % (mode, case["flavour"], case["entry"], case["point"], case["action"])
+        if st != "ok":
+            crashed += 1
+            run.add_violation("the interpreter died (rc=%s) in audit case %s/%s/%s/%s (mode %s)"
+                              % (r.get("returncode"), case["flavour"], case["entry"], case["point"], case["action"], mode),
+                              {"property": ID, "kind": "interpreter crashed during a re-entrant lookup", "mode": mode, "case": case,
+                               "returncode": r.get("returncode"), "stderr_tail": r.get("stderr", "")[-2000:],
+                               "python": replay_text(case, {}, mode)}, "crash_" + tag)
+            continue
+        o = r["obs"][0]
+        if "skip" in o:
+            continue
+        bad = ("error" in o) or (o.get("fired") and (not o["owned"] or o["answer"] == 2 or not o["second"]
+                                                    or abs(o["growth_objs"]) > 8 or o["growth_refs"] > 8))
+        if bad:
+            unowned += 1
+            run.add_violation("audit case %s/%s/%s/%s (mode %s): %s" % (case["flavour"], case["entry"], case["point"], case["action"], mode,
+                                                                      "not owned" if not o.get("owned", True) else "wrong answer / leak"),
+                              {"property": ID, "kind": "implementation contradicts Spec on this input", "mode": mode, "case": case,
+                               "observed": o, "python": replay_text(case, o, mode)}, "audit_" + tag)
+    run.coverage["audit_crashed_%s" % mode] = {"cases_killing_the_interpreter": crashed, "other_failing_cases": unowned,
+                                               "first_crash": res.get("returncode")}
+    if not crashed and not unowned:
+        run.add_violation("the audit driver died as a whole (rc=%s) but no single case reproduces it" % res.get("returncode"),
+                          {"property": ID, "kind": "driver crash", "mode": mode, "stderr_tail": res.get("stderr", "")[-3000:]},
+                          "crash_%s_all" % mode)
+
+
 # --------------------------------------------------------------------------- the extractor tie
 
 def regenerate(run):
@@ -265,7 +310,7 @@ def extra(run, impl, known):
     def one(job):
         label, im, driver, payload, mode, env = job
         try:
-            return job, im.run(driver, payload, mode, env=env, timeout=secs * 4 + 600)
+            return job, im.run(driver, payload, mode, env=env, timeout=(secs * 3 + 120) if "stress" in driver else 240)
         except Exception as e:   # noqa (timeout)
             return job, ("crash", {"returncode": -999, "stderr": repr(e), "stdout": ""})
 
